@@ -278,13 +278,15 @@ static void c07_check(cbor_item_t* it) {
   enum { SLACK = 4096 };
   for (size_t n = 0; n <= size + 2; n++) {
     /* exactly n bytes: any write past n lands in the ASan red zone */
-    uint8_t* blk = malloc(n);
+    unsigned omis = (unsigned)((n * 3 + size) & 7); /* output start alignment varies; the end abuts the red zone */
+    uint8_t* blk_base = malloc(n + omis);
+    uint8_t* blk = blk_base + omis;
     memset(blk, 0xcd, n);
     size_t r = cbor_serialize(it, blk, n);
     size_t expect = n >= size ? size : 0;
     if (r != expect) vh_violation("wrong-return", "item of serialized size %zu, buffer of %zu bytes: cbor_serialize returned %zu (expected %zu)", size, n, r, expect);
     else if (r && memcmp(blk, base, size)) vh_violation("bytes-differ", "buffer of %zu bytes: output differs from the output for the exact size", n);
-    free(blk);
+    free(blk_base);
     VH_COUNT("serialize_calls", 1);
     /* sentinel image: writes further away than the red zone */
     if (size <= 64 || n + 3 >= size || n < 3 || (n % 17) == 0) {
@@ -363,7 +365,10 @@ static void c07_enc_case(int e, uint64_t v, size_t ni) {
   if (ni >= N_ENC_SIZES) return;
   size_t n = enc_sizes[ni];
   if (!vh_case(desc, 11)) return;
-  uint8_t* blk = malloc(n);
+  /* the output starts at every alignment 0..7 over the cases; its end still abuts the red zone */
+  unsigned omis = (unsigned)((v ^ (v >> 29) ^ (uint64_t)e * 5 ^ ni) & 7);
+  uint8_t* blk_base = malloc(n + omis);
+  uint8_t* blk = blk_base + omis;
   memset(blk, 0xcd, n);
   ta_reset_stats();
   size_t r = vh_call_encoder(e, v, blk, n);
@@ -384,7 +389,7 @@ static void c07_enc_case(int e, uint64_t v, size_t ni) {
   else if ((n >= rfull) != (r != 0) || (r && r != rfull)) vh_violation("wrong-return", "cbor_encode_%s(%llu): needs %zu bytes, buffer %zu, returned %zu", enc_names[e], (unsigned long long)v, rfull, n, r);
   if (rfull && rfull <= 9) for (size_t i = rfull; i < bigcap; i++) if (big[i] != 0x5e) { vh_violation("write-beyond-return", "cbor_encode_%s(%llu, n=16) returned %zu but modified byte %zu", enc_names[e], (unsigned long long)v, rfull, i); break; }
   free(big);
-  free(blk);
+  free(blk_base);
   vh_nontrivial(vh_hash(desc, 11));
   VH_COUNT("encoder_calls", 3);
 }
